@@ -401,3 +401,144 @@ Example ex_help_same_page :
     | _ => False end
   | Err _ => False end.
 Proof. vm_compute. split; reflexivity. Qed.
+
+(* ================= "help <path>" = "<path> --help" = "<path> -h": the general statement ================= *)
+(* help_same_page_partial above is superseded.  Proofs/HelpSamePageLemmas.v closes the full statement for every
+   application built from a configuration that defines the global help option the way DefaultApplicationConfig does
+   (add_option("help", "h", Option.NO_VALUE)): commands WITH default sub-commands included (also anonymous ones, lenient
+   ones, and the application's own default commands when the line is empty), and with NO hypothesis on the parser - when the
+   lenient parse raises (ValueError: a typed argument), the three spellings raise the same error.
+   The side conditions left are needed (examples below):
+     - the configuration defines the help option (else a strictly parsed default sub-command refuses "--help");
+     - the line consists of plain tokens (what the property calls a path);
+     - its first token is not the word "help" (HelpResolver drops one leading "help" from either line).
+   No condition on the command tree (distinct sibling names, aliases, depth) and none on what the path reaches. *)
+From Clikit Require Import Proofs.HelpSamePageLemmas.
+
+(* the help option of every command format; stated on the built application *)
+Theorem help_same_page_app : forall a o sw path,
+  Forall (tree_ok (carries o)) (ap_cmds a) -> no_value o -> help_switch_of o sw ->
+  forallb lead_ok path = true ->
+  (match path with t :: _ => str_eqb t S_help = false | [] => True end) ->
+  help_target a (S_help :: path) = help_target a (path ++ [sw]).
+Proof. exact help_same_target_app. Qed.
+Print Assumptions help_same_page_app.
+(* build_app makes every command format extend the global one *)
+Theorem help_option_everywhere : forall cfg a o,
+  build_app cfg = Ok a -> In o (ac_opts cfg) -> Forall (tree_ok (carries o)) (ap_cmds a).
+Proof. exact build_app_carries. Qed.
+Print Assumptions help_option_everywhere.
+(* the configuration-level statement *)
+Theorem help_same_page : forall cfg a path,
+  build_app cfg = Ok a -> defines_help cfg = true ->
+  forallb lead_ok path = true ->
+  (match path with t :: _ => str_eqb t S_help = false | [] => True end) ->
+  help_target a (S_help :: path) = help_target a (path ++ [T_help]) /\
+  help_target a (S_help :: path) = help_target a (path ++ [T_h]).
+Proof. exact help_same_target. Qed.
+Print Assumptions help_same_page.
+(* help_same_page_partial with "--help"/"-h" for the option, its second parse hypothesis discharged *)
+Theorem help_same_page_no_defaults : forall cfg a path b p x1,
+  build_app cfg = Ok a -> defines_help cfg = true ->
+  forallb lead_ok path = true ->
+  (match path with t :: _ => str_eqb t S_help = false | [] => True end) ->
+  walk (named_of (ap_cmds a)) None path = Ok (Some (b, p)) ->
+  defaults_of (b_subs b) = [] ->
+  parse (b_fmt b) true path = Ok x1 ->
+  help_target a (S_help :: path) = Ok p /\ help_target a (path ++ [T_help]) = Ok p /\ help_target a (path ++ [T_h]) = Ok p.
+Proof. exact help_target_no_defaults. Qed.
+Print Assumptions help_same_page_no_defaults.
+
+(* ---- a DefaultApplicationConfig-like configuration: global --help/-h and --verbose/-v, the default command "help" with
+   its multi-valued argument "command", and "server" (alias srv, option --level) with the default sub-commands "add"
+   (strict, requires <file>) and "run" (strict, no argument), the anonymous lenient default "old" and the plain sub-command
+   "secret" (integer argument) ---- *)
+Definition COMMAND : str := [99;111;109;109;97;110;100]%N.
+Definition VERBOSE : str := [118;101;114;98;111;115;101]%N.
+Definition NUM : str := [110;117;109]%N.
+Definition X7 : str := [55]%N.
+Definition o_help : opt := {| o_long := S_help; o_short := Some [104%N]; o_flags := 4 + 2 + 128; o_default := VNone |}.
+Definition o_verbose : opt := {| o_long := VERBOSE; o_short := Some [118%N]; o_flags := 16 + 2 + 128; o_default := VNone |}.
+Definition o_level : opt := {| o_long := LEVEL; o_short := Some [108%N]; o_flags := 8 + 2 + 512; o_default := VNone |}.
+Definition a_command : arg := {| a_name := COMMAND; a_flags := 2 + 4 + 16; a_default := VList [] |}.
+Definition a_file : arg := {| a_name := FILE; a_flags := 1 + 16; a_default := VNone |}.
+Definition a_num : arg := {| a_name := NUM; a_flags := 2 + 64; a_default := VNone |}.
+Definition c_help : cmd := Cmd S_help [] true false true false [] [a_command] [].
+Definition c_server : cmd :=
+  Cmd SERVER [SRV] false false true false [o_level] []
+    [Cmd ADD [] true false true false [] [a_file] [];
+     Cmd RUN [] true false true false [] [] [];
+     Cmd OLD [] true true true true [] [] [];
+     Cmd SECRET [] false false true false [] [a_num] []].
+Definition ex_dcfg : appcfg := {| ac_opts := [o_help; o_verbose]; ac_args := []; ac_cmds := [c_help; c_server] |}.
+
+(* non-vacuity: the configuration builds, defines the help option, "server" has default sub-commands, and the line
+   satisfies the hypotheses of help_same_page; the target is the first default sub-command the line parses for *)
+Example ex_help_same_page_defaults :
+  match build_app ex_dcfg with
+  | Ok a =>
+    defines_help ex_dcfg = true /\ forallb lead_ok [SERVER] = true /\ str_eqb SERVER S_help = false /\
+    match walk (named_of (ap_cmds a)) None [SERVER] with
+    | Ok (Some (b, _)) => map b_name (defaults_of (b_subs b)) = [ADD; RUN; OLD]
+    | _ => False end /\
+    help_target a [S_help; SERVER] = Ok [SERVER; RUN] /\
+    help_target a [SERVER; T_help] = Ok [SERVER; RUN] /\ help_target a [SERVER; T_h] = Ok [SERVER; RUN] /\
+    (* one more plain token: now "add" parses *)
+    help_target a [S_help; SRV; X7] = Ok [SERVER; ADD] /\
+    help_target a [SRV; X7; T_help] = Ok [SERVER; ADD] /\ help_target a [SRV; X7; T_h] = Ok [SERVER; ADD]
+  | Err _ => False end.
+Proof. vm_compute. repeat split; reflexivity. Qed.
+(* the theorem applied to it *)
+Example ex_help_same_page_applied : forall a, build_app ex_dcfg = Ok a ->
+  help_target a [S_help; SERVER] = help_target a [SERVER; T_help] /\ help_target a [S_help; SERVER] = help_target a [SERVER; T_h].
+Proof. intros a Ha. apply (help_same_page ex_dcfg a [SERVER] Ha); reflexivity. Qed.
+
+(* the parse hypotheses of help_same_page_partial cannot be derived from the configuration: "secret" takes an integer, and the
+   lenient parse of "server secret add" raises ValueError ("add" is no sub-command of secret, so it is the integer) - under all three spellings *)
+Example ex_help_value_error :
+  match build_app ex_dcfg with
+  | Ok a =>
+    help_target a [S_help; SERVER; SECRET; ADD] = Err ValueError /\
+    help_target a [SERVER; SECRET; ADD; T_help] = Err ValueError /\ help_target a [SERVER; SECRET; ADD; T_h] = Err ValueError
+  | Err _ => False end.
+Proof. vm_compute. repeat split; reflexivity. Qed.
+
+(* NEEDED 1 - the help option: the same configuration without it (not a DefaultApplicationConfig).  "help server" answers,
+   "server --help" and "server -h" raise NoSuchOption out of the strict probe of the default sub-command "add". *)
+Definition ex_dcfg_nohelp : appcfg := {| ac_opts := [o_verbose]; ac_args := []; ac_cmds := [c_help; c_server] |}.
+Example help_same_page_needs_help_option :
+  match build_app ex_dcfg_nohelp with
+  | Ok a =>
+    defines_help ex_dcfg_nohelp = false /\
+    help_target a [S_help; SERVER] = Ok [SERVER; RUN] /\
+    help_target a [SERVER; T_help] = Err NoSuchOption /\ help_target a [SERVER; T_h] = Err NoSuchOption
+  | Err _ => False end.
+Proof. vm_compute. repeat split; reflexivity. Qed.
+(* NEEDED 2 - no leading "help": "help help server" is the page of the help command, "help server --help" that of server *)
+Example help_same_page_needs_no_leading_help :
+  match build_app ex_dcfg with
+  | Ok a =>
+    help_target a [S_help; S_help; SERVER] = Ok [S_help] /\
+    help_target a [S_help; SERVER; T_help] = Ok [SERVER; RUN] /\ help_target a [S_help; SERVER; T_h] = Ok [SERVER; RUN]
+  | Err _ => False end.
+Proof. vm_compute. repeat split; reflexivity. Qed.
+
+(* REFUTED for the path "help" (the built-in help command itself), one level up, in what a run does (Model/Switches.v
+   run_summary): the help targets agree, but "help help" prints the page of the help command while "help --help" and
+   "help -h" print the APPLICATION page - the help listener parses the line with the help command's format, "help" is taken
+   for the command name, and the argument "command" stays unset.  Observed alike on the Python code (ConsoleApplication over a
+   DefaultApplicationConfig: "help help" starts with USAGE app help [<command1>] ..., "help --help" with the name and version). *)
+Example help_same_page_refuted_help_command :
+  match build_app ex_dcfg with
+  | Ok a =>
+    help_target a [S_help; S_help] = Ok [S_help] /\ help_target a [S_help; T_help] = Ok [S_help] /\
+    help_target a [S_help; T_h] = Ok [S_help] /\
+    sm_action (run_summary false a [S_help; S_help]) = AHelpCmd [S_help] /\
+    sm_action (run_summary false a [S_help; T_help]) = AHelpApp /\
+    sm_action (run_summary false a [S_help; T_h]) = AHelpApp /\
+    (* for comparison, a path other than "help": the three runs agree *)
+    sm_action (run_summary false a [S_help; SERVER]) = AHelpCmd [SERVER; RUN] /\
+    sm_action (run_summary false a [SERVER; T_help]) = AHelpCmd [SERVER; RUN] /\
+    sm_action (run_summary false a [SERVER; T_h]) = AHelpCmd [SERVER; RUN]
+  | Err _ => False end.
+Proof. vm_compute. repeat split; reflexivity. Qed.
